@@ -411,6 +411,27 @@ def check(ctx):
     # ---- R15-f loop-side entry points ----------------------------------------------------------------------------------------------------------------------
     loop_entry_points(ctx, "R15-f")
 
+    # the token that says which event loop a call goes to: an explicitly given token always wins (a portal passes its own), the
+    # calling thread's token is only the fallback
+    te = ctx.fn("_token_or_error", FT)
+    tp = te.node.args.args[0].arg
+
+    def step_tok(st, e, c):
+        if e == "rebind" and not c.is_exc and F(f"{tp} is None") not in c.facts_before:
+            return Bad(f"`{tp}` is rebound although an explicit token may have been given: the calling thread's own loop would win over the portal's")
+        return st
+
+    def is_rebind(frag, node):
+        n_ = node.node
+        return node.kind == "stmt" and isinstance(n_, (ast.Assign, ast.AnnAssign, ast.AugAssign)) and any(
+            isinstance(x, ast.Name) and x.id == tp and isinstance(x.ctx, ast.Store) for x in ast.walk(n_))
+
+    ctx.paths("R15-f", te, [("rebind", [is_rebind])], step_tok, None, None, instance="an explicit event loop token is never overridden")
+    for r_ in [x for x in own_walk(te.node) if isinstance(x, ast.Return) and x.value is not None]:
+        if ast.unparse(r_.value) == tp:
+            continue
+        ctx.require_at("R15-f", te, r_, [[f"{tp} is None"]], instance="the thread's own token is used only when none was given", what="return")
+
     # ---- R15-g the shared portal of BlockingPortalProvider -----------------------------------------------------------------------------
     pe = ctx.fn("BlockingPortalProvider.__enter__", FT)
     px = ctx.fn("BlockingPortalProvider.__exit__", FT)
